@@ -32,7 +32,8 @@ Record case := {
   q_gens : list (list nat);    (* generations as positions in q_funcs, in submission order *)
   q_runs : list runcfg;
   q_none : list str;           (* names of the functions that return a real None for some calls *)
-  q_resume : list rescfg       (* runs on a pre-filled run folder *)
+  q_resume : list rescfg;      (* runs on a pre-filled run folder *)
+  q_fail : list str            (* names of the functions that raise ZeroDivisionError for some calls *)
 }.
 
 (* the structural user function of the harness; a function listed in q_none returns None (canonical string "None")
@@ -44,7 +45,11 @@ Definition none_value (ret : list nat) (base : str) : val :=
   | [] => if code_parity base then VS (s "None") else VS base
   | _ => sym_value ret base
   end.
+Definition code_mod3 (x : str) : bool :=
+  N.eqb (N.modulo (fold_left (fun acc ch => (acc + N_of_ascii ch)%N) x 0%N) 3) 0.
 Definition case_body (c : case) (f : mfunc) (kw : env) : result (list val) :=
+  (* a function listed in q_fail raises when the character codes of its call line sum to a multiple of 3 *)
+  if mem_str (fname f) (q_fail c) && code_mod3 (sym_app f kw) then Err ZeroDivisionError else
   if mem_str (fname f) (q_none c) then
     let app := sym_app f kw in
     match fouts f with
